@@ -368,12 +368,16 @@ def save_json(data, file):
     if isinstance(data, np.ndarray):
         data = data.tolist()
 
+    # Write to a temporary file first and rename it into place, so that the
+    # previous content survives if the process is stopped while writing.
+    tmp_file = f'{file}.tmp'
     if os.path.splitext(file)[-1] == '.json':
-        with open(file, 'w') as f:
+        with open(tmp_file, 'w') as f:
             json.dump(data, f, cls=NumpyEncoder)
     else:
-        with gzip.open(file, 'wb') as gz:
+        with gzip.open(tmp_file, 'wb') as gz:
             gz.write(json.dumps(data, cls=NumpyEncoder).encode('utf-8'))
+    os.replace(tmp_file, file)
 
 
 def get_label(name: str, parameters: Dict[str, Any]) -> str:
